@@ -537,7 +537,7 @@ fn col_index(schema: &[String], name: &str) -> Option<usize> {
 }
 
 /// narrow classes of CSV fidelity failures, by a predicate on the file and its intended fields
-fn csv_class(file: &str, fields: &[&String], typed_hit: bool) -> &'static str {
+fn csv_class(file: &str, fields: &[&String], typed_hit: bool, has_null: bool) -> &'static str {
     if typed_hit {
         "import-typed-column-rejected"
     } else if fields.iter().any(|f| f.contains(',')) {
@@ -550,6 +550,8 @@ fn csv_class(file: &str, fields: &[&String], typed_hit: bool) -> &'static str {
         "csv-quoted-field" // RFC 4180 quoting around a field that did not need it
     } else if fields.iter().any(|f| f.trim() != f.as_str()) {
         "csv-field-edge-whitespace"
+    } else if has_null {
+        "csv-null-not-importable" // the table holds SQL NULL; no CSV field is ever imported as NULL
     } else {
         "result-mismatch"
     }
@@ -785,7 +787,7 @@ fn run_csv_import(cx: &mut Ctx, id: u64, case: &CsvCase) {
     let exp = expected.clone().unwrap_or_default();
     if sorted(&exp) != sorted(&rows) {
         let fields: Vec<&String> = parsed.iter().flatten().collect();
-        let class = if expected.is_none() { "result-mismatch" } else { csv_class(&t, &fields, typed_hit(&exp)) };
+        let class = if expected.is_none() { "result-mismatch" } else { csv_class(&t, &fields, typed_hit(&exp), false) };
         cx.sum.finding(class, id, format!("after import the table holds {:?}, RFC 4180 reading of the file gives {:?}", rows, expected), cj);
     }
 }
@@ -1148,6 +1150,8 @@ fn run_export(cx: &mut Ctx, id: u64, r: &mut Rng) {
     let schema = gen_schema(r, 500);
     s.create("t", &schema);
     s.create("t2", &schema);
+    s.create("t3", &schema);
+    s.create("t4", &schema);
     let nrows = r.below(6) as usize;
     let hot = *r.pick(&[0u64, 200, 500]);
     let mut data: Vec<Vec<Cell>> = Vec::new();
@@ -1216,7 +1220,10 @@ fn run_export(cx: &mut Ctx, id: u64, r: &mut Rng) {
         return;
     }
     if sorted(&back) != sorted(&data) {
-        let class = if !data.is_empty() && !header_is_names { "export-header-placeholder" } else { "result-mismatch" };
+        let texts: Vec<String> = data.iter().flatten().filter_map(|c| if let Cell::Text(t) = c { Some(t.clone()) } else { None }).collect();
+        let trefs: Vec<&String> = texts.iter().collect();
+        let has_null = data.iter().flatten().any(|c| *c == Cell::Null);
+        let class = if !data.is_empty() && !header_is_names { "export-header-placeholder" } else { csv_class(&fcsv, &trefs, typed_hit(&data), has_null) };
         cx.sum.finding(class, id, format!("CSV round trip: exported header {:?} (columns {:?}), import said {:?}, table after import {:?}", first_line, names, imp, back), cj.clone());
     }
     // JSON: one member per column?
@@ -1229,10 +1236,18 @@ fn run_export(cx: &mut Ctx, id: u64, r: &mut Rng) {
     } else {
         cx.sum.finding("result-mismatch", id + 3, "JSON export is not a JSON array".into(), cj.clone());
     }
-    let imp_j = s.copy(&format!("\\copy t2 FROM {}", pjson.to_str().unwrap()));
-    let back_j = s.rows("t2");
+    let imp_j = s.copy(&format!("\\copy t3 FROM {}", pjson.to_str().unwrap()));
+    let back_j = s.rows("t3");
     if sorted(&back_j) != sorted(&data) {
-        let class = if !data.is_empty() && fjson.contains("\"Column\"") && col_index(&names, "Column").is_none() { "export-header-placeholder" } else { "result-mismatch" };
+        let class = if !data.is_empty() && fjson.contains("\"Column\"") && col_index(&names, "Column").is_none() {
+            "export-header-placeholder"
+        } else if typed_hit(&data) {
+            "import-typed-column-rejected"
+        } else if data.iter().flatten().any(|c| *c == Cell::Text("NULL".into())) {
+            "null-text-becomes-null"
+        } else {
+            "result-mismatch"
+        };
         cx.sum.finding(class, id + 4, format!("JSON round trip: import said {:?}, table after import {:?}", imp_j, back_j), cj.clone());
     }
     // assisted round trip: the harness repairs the header line, the cells stay as exported
@@ -1244,8 +1259,8 @@ fn run_export(cx: &mut Ctx, id: u64, r: &mut Rng) {
         }
         let p2 = dir.join("fixed.csv");
         std::fs::write(&p2, fixed.as_bytes()).unwrap();
-        let imp2 = s.copy(&format!("\\copy t2 FROM '{}'", p2.to_str().unwrap()));
-        let back2 = s.rows("t2");
+        let imp2 = s.copy(&format!("\\copy t4 FROM '{}'", p2.to_str().unwrap()));
+        let back2 = s.rows("t4");
         if sorted(&back2) != sorted(&data) {
             // every exported cell is a Debug rendering, never the value's own text
             let debugish = ordered.iter().flatten().all(|c| match c { Cell::Text(t) => format!("Varchar({:?})", t) != *t, _ => true });
@@ -1263,6 +1278,8 @@ fn run_writer(cx: &mut Ctx, id: u64, r: &mut Rng) {
     let roundtrip = r.chance(1, 2);
     let pcsv = dir.join("w.csv");
     let pjson = dir.join("w.json");
+    // what the table is meant to hold (None = SQL NULL, written with the marker NULL)
+    let mut intended: Vec<Vec<Option<String>>> = Vec::new();
     let (columns, rows, schema): (Vec<String>, Vec<Vec<String>>, Option<Vec<(String, Ty)>>) = if roundtrip {
         let mut sch = gen_schema(r, 0);
         for c in sch.iter_mut() {
@@ -1270,7 +1287,10 @@ fn run_writer(cx: &mut Ctx, id: u64, r: &mut Rng) {
         }
         let hot = *r.pick(&[0u64, 0, 100, 300]);
         let n = r.below(5) as usize;
-        let rows = (0..n).map(|_| sch.iter().map(|_| if r.chance(1, 15) { "NULL".to_string() } else { gen_text(r, hot, 3) }).collect()).collect();
+        let cells: Vec<Vec<Option<String>>> =
+            (0..n).map(|_| sch.iter().map(|_| if r.chance(1, 20) { None } else if r.chance(1, 15) { Some("NULL".to_string()) } else { Some(gen_text(r, hot, 3)) }).collect()).collect();
+        intended = cells.clone();
+        let rows = cells.iter().map(|r| r.iter().map(|c| c.clone().unwrap_or_else(|| "NULL".to_string())).collect()).collect();
         (sch.iter().map(|(n, _)| n.clone()).collect(), rows, Some(sch))
     } else {
         let nc = r.below(4) as usize;
@@ -1335,17 +1355,18 @@ fn run_writer(cx: &mut Ctx, id: u64, r: &mut Rng) {
         if let Ok(st) = &direct {
             cx.stmt_cases(id + sub, "t", st);
         }
-        let want: Vec<Vec<Cell>> = rows.iter().map(|r| r.iter().map(|v| Cell::Text(v.clone())).collect()).collect();
+        let want: Vec<Vec<Cell>> = intended.iter().map(|r| r.iter().map(|v| match v { Some(t) => Cell::Text(t.clone()), None => Cell::Null }).collect()).collect();
         if !other_intact(&mut s) {
             cx.sum.finding("import-changed-other-objects", id + sub, "round trip touched another table".into(), cj.clone());
             continue;
         }
         if sorted(&back) != sorted(&want) {
-            let fields: Vec<&String> = rows.iter().flatten().collect();
+            let fields: Vec<&String> = intended.iter().flatten().flatten().collect();
+            let has_null = intended.iter().flatten().any(|c| c.is_none());
             let class = if is_json {
                 if fields.iter().any(|f| f.as_str() == "NULL") { "null-text-becomes-null" } else { "result-mismatch" }
             } else {
-                csv_class(&fcsv, &fields, false)
+                csv_class(&fcsv, &fields, false, has_null)
             };
             cx.sum.finding(class, id + sub, format!("{} writer->reader round trip: wrote {:?}, table after import {:?} (import said {:?})", if is_json { "JSON" } else { "CSV" }, rows, back, hc), cj.clone());
         } else {
@@ -1494,7 +1515,7 @@ fn main() {
     let mut cx = Ctx { args, sum: Summary::default(), log, cases: Vec::new(), dir: dir.clone() };
     cx.sum.nontrivial_rule = "import cases that generated at least one statement; export/writer cases with at least one row; \\copy lines that parse as a copy command".into();
     let scale = if thorough { 6 } else { 1 };
-    let counts: [(u64, u64); 6] = [(1, 1500 * scale), (2, 1300 * scale), (3, 500 * scale), (4, 700 * scale), (5, 600 * scale), (6, 500 * scale)];
+    let counts: [(u64, u64); 6] = [(1, 1200 * scale), (2, 1000 * scale), (3, 400 * scale), (4, 500 * scale), (5, 400 * scale), (6, 300 * scale)];
     for (fam, n) in counts {
         for i in 0..n {
             let id = fam * 1_000_000 + i * 10;
